@@ -1678,7 +1678,12 @@ return 1;""",
 #            goto_fail = True;
 
         if need_rv_decl:
-            declare_code.append(fmt.C_rv_decl + ";")
+            # The variable is assigned after its declaration,
+            # a const value (const std::string) could not be assigned.
+            declare_code.append(ast.gen_arg_as_cxx(
+                name=fmt_result.cxx_var, params=None,
+                with_template_args=True, continuation=True,
+                asgn_value=True) + ";")
 
         # Compute return value
         if CXX_subprogram == "function":
